@@ -25,7 +25,7 @@ MONITORS = ["timingdata_source", "displaybpm"]
 REQUIRED = ["source_chart", "source_simfile", "version_0.7", "version_0.69", "version_absent", "sm_simfile", "sm_chart",
             "chart_offset_absent_simfile_offset_set", "dbpm_static", "dbpm_range", "dbpm_random", "dbpm_malformed",
             "dbpm_fallback_single", "dbpm_fallback_range", "dbpm_fallback_range_equal_values", "ignore_specified",
-            "non_timing_chart_property_set", "chart_value_identical_to_simfile_value"]
+            "non_timing_chart_property_set", "chart_value_identical_to_simfile_value", "key_only_chart_timing_property"]
 
 PROPS = ["BPMS", "STOPS", "DELAYS", "TIMESIGNATURES", "TICKCOUNTS", "COMBOS", "WARPS", "SPEEDS", "SCROLLS", "FAKES", "LABELS"]
 VERSIONS = [None, "", "0.69", "0.7", "0.70", "0.83", "1.0"]
@@ -198,7 +198,9 @@ def run_one(ctx, case):
         chart = SSCChart.blank()
         for key, st in zip(PROPS, states):
             if st == 1:
-                chart[key] = ""
+                chart[key] = "" if rng.random() < 0.7 else None   # '#STOPS:;' or the key-only '#STOPS;'
+                if chart[key] is None:
+                    ctx.feat("key_only_chart_timing_property")
             elif st == 2:
                 chart[key] = cv[key]
         for key in ("ATTACKS", "CHARTNAME", "CREDIT", "MUSIC", "KEYSOUNDS"):
